@@ -16,7 +16,15 @@ def _parse_sync(lines, res=192):
     lines are also placed in an instrument and the events section, where they are foreign (unparsable): what a
     line means in the sync section must not depend on where else, or when, the same text was seen."""
     foreign = lines[2:][:: max(1, len(lines) // 5)][:6]
+    _calls[0] += 1
+    if _calls[0] % 5 == 0:
+        from chartgen import ITERABLE_KINDS, entry_point
+        with entry_point(ITERABLE_KINDS[(_calls[0] // 5) % len(ITERABLE_KINDS)]):  # the section-level entry points, other iterables
+            return outcome(chart_text(res=res, sync=lines, events=foreign[:3], tracks={"HardDrums": foreign}))
     return outcome(chart_text(res=res, sync=lines, events=foreign[:3], tracks={"HardDrums": foreign}))
+
+
+_calls = [0]
 
 
 def _observe_batch(items, recs, ctx, top=True):
